@@ -76,6 +76,8 @@ pub struct Ctx {
     pub inject_queue: VecDeque<(&'static str, Inject)>,
     /// number of `is_readable` calls (the closed-loop run of `stack` delimits iterations with it)
     pub readable_calls: u64,
+    /// what a socket answers to `is_writable` until it is scripted (`set_sock`)
+    pub default_writable: Poll,
 }
 
 impl Ctx {
@@ -83,7 +85,7 @@ impl Ctx {
         Self {
             ops: vec![], queue: VecDeque::new(), inject: None, tcp: TcpState::Other,
             socks: vec![], dropped: vec![], polled: vec![], readable: None, read_fails: false,
-            inject_queue: VecDeque::new(), readable_calls: 0,
+            inject_queue: VecDeque::new(), readable_calls: 0, default_writable: Poll::Yes,
         }
     }
 }
@@ -115,7 +117,11 @@ pub fn reset() {
         c.read_fails = false;
         c.inject_queue.clear();
         c.readable_calls = 0;
+        c.default_writable = Poll::Yes;
     });
+}
+pub fn set_default_writable(p: Poll) {
+    CTX.with(|c| c.borrow_mut().default_writable = p);
 }
 /// forget the recorded calls of the previous operation, keep the sockets
 pub fn clear_ops() {
@@ -262,7 +268,8 @@ fn new_socket(text: String) -> IoResult<SimSocket> {
         Some(e) => Err(IoError::Other(e, IoOperation::NewSocket)),
         None => Ok(CTX.with(|c| {
             let mut c = c.borrow_mut();
-            c.socks.push(SockState { kind, writable: Poll::Yes, tcp: None });
+            let w = c.default_writable;
+            c.socks.push(SockState { kind, writable: w, tcp: None });
             SimSocket { id: c.socks.len() - 1 }
         })),
     }
